@@ -48,6 +48,14 @@ func genC11(r *simrt.Rand, tier string) (Cfg, *Program) {
 	pf.ErrReaderPct = 30
 	pf.CloseInFnPct = 8
 	pf.IDPct = 40 // chosen job ids (printable, control characters, non-BMP runes) must survive storage
+	if r.Chance(10) {
+		// the worker's context is cancelled while deliveries are on their way to a pool
+		// goroutine: whatever is not processed must not be acknowledged
+		pf.UseCtxPct = 100
+		pf.Ctrl = []wop{{opCancelCtx, 1}}
+		pf.CtrlOps = [2]int{1, 1}
+		pf.CtrlGapPct = 60
+	}
 	c, p := generate(r, pf)
 	if r.Chance(25) {
 		// entries this worker cannot decode (written by something else): delivered, reported,
